@@ -535,6 +535,18 @@ func checkC07Parent(x *e1ctx) {
 					}
 				}
 			}
+			// the wait blocks for exactly this child: no option that narrows the children waited for or returns early
+			okOpt := true
+			optD := ""
+			for _, c2 := range callInstrs(callee) {
+				if n2, _ := calleeOf(c2); strings.HasSuffix(n2, ".Wait4") && len(c2.Common().Args) >= 3 {
+					if o, isC := constInt(c2.Common().Args[2]); !isC || o != 0 {
+						okOpt = false
+						optD = describe(c2.Common().Args[2])
+					}
+				}
+			}
+			c.Cond(okOpt, "3/fail-kill-reap", rk+":wait-options", p.Pos(callee.Pos()), "wait4 with options 0", "the failed child is awaited with options "+optD+": with __WCLONE a child created with exit signal SIGCHLD is never matched (ECHILD at once, the zombie stays); with WNOHANG the wait does not wait")
 			c.Cond(eintr && (nWait >= 2 || inLoop(wait.Block())), "3/fail-kill-reap", rk+":eintr", p.Pos(callee.Pos()), "wait4 is retried on EINTR", "wait4 is not retried on EINTR: an interrupted wait leaves a zombie")
 		}
 	}
@@ -588,7 +600,7 @@ func checkC07Parent(x *e1ctx) {
 		c.Cond(!found, "3/fail-kill-reap", fmt.Sprintf("%s:return#%d", key, nRet), p.Pos(ret.Pos()), "error return is preceded by kill+reap on every path",
 			"an error is returned while the child is neither killed nor reaped; path: "+p.trail(trail))
 	}
-	c.Expect("3/fail-kill-reap", 5)
+	c.Expect("3/fail-kill-reap", 6)
 }
 
 func isCloneFailedGuard(g *Form, errno *ssa.Parameter) bool {
